@@ -36,6 +36,10 @@ def make_sim(trace, mode, hz=True, dc=None, ic=None, prog=None):
         data_cache=_cache_options(dc),
         instruction_cache=_cache_options(ic),
     )
+    # the assembler is stubbed, but the rest of load_program() is not: reset both memories first
+    # (riscv_simulation.py:106-116), then place the instructions as the parser's last step does
+    sim.state.memory.reset()
+    sim.state.instruction_memory.reset()
     sim.state.instruction_memory.write_instructions(ir.build(trace["prog"] if prog is None else prog))
     regs = sim.state.register_file.registers
     for k, v in trace["regs"].items():
@@ -45,6 +49,30 @@ def make_sim(trace, mode, hz=True, dc=None, ic=None, prog=None):
         # what the parser does for the data segment: straight into the backing store
         mem.write_byte(int(a), fixedint.UInt8(v), directly_write_to_lower_memory=True)
     return sim
+
+
+class Decoy:
+    """A second live simulation with the *opposite* settings, created after the simulation under
+    observation and stepped alternately with it (the web UI keeps several simulation objects alive;
+    state shared between instances - class attributes, module globals, mutable defaults - only
+    shows when instances with different settings coexist)."""
+
+    def __init__(self, trace, hz, dc, ic, prog=None):
+        self.sim = None
+        if not trace["cfg"].get("decoy"):
+            return
+        cfg = trace["cfg"]
+        try:
+            self.sim = make_sim(trace, "five_stage_pipeline", not hz, None if dc else cfg.get("dc"), None if ic else cfg.get("ic"), prog)
+        except Exception:  # noqa: BLE001
+            self.sim = None
+
+    def step(self):
+        if self.sim is not None:
+            try:
+                self.sim.step()
+            except Exception:  # noqa: BLE001
+                self.sim = None
 
 
 def exc_info(e):
@@ -106,6 +134,7 @@ def run_ref(trace, dc=None, ic=None, cap=REF_CAP, prog=None, hook=None):
     (addr, index, redirect, is_ecall, exited, rd, rdval, out_len)."""
     prog_ir = trace["prog"] if prog is None else prog
     sim = make_sim(trace, "single_stage_pipeline", True, dc, ic, prog)
+    decoy = Decoy(trace, True, dc, ic, prog)
     st = sim.state
     pm = st.performance_metrics
     regs = st.register_file.registers
@@ -125,6 +154,7 @@ def run_ref(trace, dc=None, ic=None, cap=REF_CAP, prog=None, hook=None):
         bc0 = pm.branch_count
         if hook:
             hook(sim, ins, len(recs))
+        decoy.step()
         try:
             sim.step()
         except Exception as e:  # noqa: BLE001
@@ -162,6 +192,7 @@ def run_five(trace, hz=True, dc=None, ic=None, max_ticks=3000, stop_after_retire
       (tick, retired_addr, cycles, flushes, stalls, out_len, exit_code,
        dc_acc, dc_hits, ic_acc, ic_hits, stalled_pre, pc_pre, had_instr_pre, if_addr, sig, rdval)"""
     sim = make_sim(trace, "five_stage_pipeline", hz, dc, ic, prog)
+    decoy = Decoy(trace, hz, dc, ic, prog)
     st = sim.state
     pm = st.performance_metrics
     pl = st.pipeline
@@ -186,6 +217,7 @@ def run_five(trace, hz=True, dc=None, ic=None, max_ticks=3000, stop_after_retire
         except Exception:  # noqa: BLE001
             had = None
         fl0 = pm.flushes
+        decoy.step()
         try:
             sim.step()
         except Exception as e:  # noqa: BLE001
